@@ -334,7 +334,18 @@ func genBigFaultImport(r *rand.Rand, tier, id string) Case {
 	return c
 }
 
+// crash points of a large import: every prefix of its physical batches (C05)
+func genBigCrashImport(r *rand.Rand, tier, id string) Case {
+	c := Case{ID: id, Kind: "m1", Params: []string{"iv=-"}, Cfgs: []string{"cache=1000,fast=false,flush=100000,sync=false,backend=memdb,wrap=true"}}
+	c.Ops = append(c.Ops, []string{"crash", "bigimport", "5050"})
+	if tier != "quick" {
+		c.Ops = append(c.Ops, []string{"crash", "bigimport", "10050"})
+	}
+	return c
+}
+
 func init() {
+	generators["C05big"] = genBigCrashImport
 	generators["C17big"] = genBigFaultImport
 	runners["imp"] = runImp
 	generators["C10h"] = genImp
